@@ -12,21 +12,25 @@
    outcome and replayed on the real code with a scripted generator.      *)
 EXTENDS Integers, Sequences, FiniteSets, SequencesExt, FiniteSetsExt, Json, IOUtils, TLC
 
-CONSTANTS Ks,        \* admissible exponents (multiples of 4)
+CONSTANTS Ks,        \* admissible exponents (multiples of 4); the value Dead stands for log L = -inf
+                     \* (zero incremental weight: such a row may never be drawn)
           NMin, NMax,
           Betas,     \* temperatures in quarters, subset of 0..4
           MaxIdx     \* cap on index vectors per case (the rest is sampled by hash)
 
+Dead == 99
 Pow2(n) == IF n = 0 THEN 1 ELSE 2 ^ n     \* n >= 0
 
 \* weights as integers: 2^(d*k/4 - min)  for d = bt - bf in quarters
-Expo(ks, d) == [i \in 1..Len(ks) |-> (d * ks[i]) \div 4]
-MinOf(q) == CHOOSE m \in {q[i] : i \in 1..Len(q)} : \A i \in 1..Len(q) : m <= q[i]
-IntW(ks, d) == LET e == Expo(ks, d) m == MinOf(e) IN [i \in 1..Len(ks) |-> Pow2(e[i] - m)]
+Live(ks) == {i \in 1..Len(ks) : ks[i] # Dead}
+Expo(ks, d) == [i \in 1..Len(ks) |-> IF ks[i] = Dead THEN 0 ELSE (d * ks[i]) \div 4]
+MinLive(ks, q) == CHOOSE m \in {q[i] : i \in Live(ks)} : \A i \in Live(ks) : m <= q[i]
+IntW(ks, d) == LET e == Expo(ks, d) m == MinLive(ks, e)
+               IN [i \in 1..Len(ks) |-> IF ks[i] = Dead THEN 0 ELSE Pow2(e[i] - m)]
 SumSeq(q) == FoldLeft(LAMBDA a, b : a + b, 0, q)
 
 \* index vectors: all of them for small cases, otherwise a deterministic subsample
-AllIdx(n, sz) == [1..sz -> 1..n]
+AllIdx(ks, sz) == [1..sz -> Live(ks)]      \* a generator never returns a row of probability zero
 Pick(S) == IF Cardinality(S) <= MaxIdx THEN S
            ELSE LET q == SetToSeq(S) step == Len(q) \div MaxIdx
                 IN {q[1 + ((j * step) % Len(q))] : j \in 0..(MaxIdx - 1)}
@@ -42,21 +46,23 @@ Case(ks, bf, bt, sz, idx) ==
 
 Cases ==
   UNION { UNION { UNION { UNION {
-     { Case(ks, bf, bt, sz, idx) : idx \in Pick(AllIdx(Len(ks), sz)) }
+     { Case(ks, bf, bt, sz, idx) : idx \in Pick(AllIdx(ks, sz)) }
        : sz \in Sizes(Len(ks)) }
-       : bt \in {b \in Betas : b >= bf} }
+       \* a dead row makes the incremental weight 0 * (-inf) undefined when the temperature does not move
+       : bt \in {b \in Betas : b > bf \/ (b = bf /\ Live(ks) = 1..Len(ks))} }
        : bf \in Betas }
-       : ks \in UNION {[1..n -> Ks] : n \in NMin..NMax} }
+       : ks \in {q \in UNION {[1..n -> Ks] : n \in NMin..NMax} : Live(q) # {}} }
 
 (* laws of the reference itself *)
 ProbsSumToOne == \A c \in Cases : SumSeq(c.wnum) = c.wden
-ProbsPositive == \A c \in Cases : \A i \in 1..Len(c.wnum) : c.wnum[i] > 0
+ProbsPositive == \A c \in Cases : \A i \in 1..Len(c.wnum) : (c.wnum[i] > 0) <=> (c.ks[i] # Dead)
+DrawnRowsLive == \A c \in Cases : \A r \in 1..Len(c.idx) : c.ks[c.idx[r]] # Dead
 \* a larger incremental log-weight never gets a smaller probability when moving up in temperature
 Monotone == \A c \in Cases : \A i, j \in 1..Len(c.ks) :
-               (c.bt > c.bf /\ c.ks[i] >= c.ks[j]) => c.wnum[i] >= c.wnum[j]
+               (c.bt > c.bf /\ c.ks[i] # Dead /\ c.ks[j] # Dead /\ c.ks[i] >= c.ks[j]) => c.wnum[i] >= c.wnum[j]
 SameBetaUniform == \A c \in Cases : c.bt = c.bf => \A i \in 1..Len(c.wnum) : c.wnum[i] = 1
 
-ASSUME ProbsSumToOne /\ ProbsPositive /\ Monotone /\ SameBetaUniform
+ASSUME ProbsSumToOne /\ ProbsPositive /\ Monotone /\ SameBetaUniform /\ DrawnRowsLive
 ASSUME PrintT(<<"NCASES", Cardinality(Cases)>>)
 ASSUME JsonSerialize(IOEnv.OUT_FILE, SetToSeq(Cases))
 
